@@ -177,7 +177,9 @@ EncFieldClasses(st, f, nocomp, first, nset) ==
 \* comparable projections of decoded and input fields over their common length
 EncK(D, F) ==
   LET m == MinI(Len(D.out), Len(F))
-      A == [k \in 1..m |-> <<D.out[k][1], D.out[k][2], F[k][3] => D.out[k][3]>>]
+      \* (the triple is compared whole: a field the caller did not mark sensitive must not come out never-indexed either -
+      \* it would stay uncompressed at every hop behind this one)
+      A == [k \in 1..m |-> <<D.out[k][1], D.out[k][2], F[k][3] = D.out[k][3]>>]
       B == [k \in 1..m |-> <<F[k][1], F[k][2], TRUE>>]
       kd == FirstDiff(A, B) IN
   IF kd # 0 THEN kd ELSE IF Len(D.out) = Len(F) THEN 0 ELSE m + 1
